@@ -286,7 +286,7 @@ pub fn run(rep: &Report) {
         "sequence_bound",
         json!(format!("length <= {} over the 7-symbol sequence alphabet, length <= {} over the 16-symbol base alphabet", max_len, max_base)),
     );
-    let n = rep.tier.pick(200_000u64, 2_000_000);
+    let n = rep.tier.pick(200_000u64, 6_000_000);
     let depth = rep.tier.pick(4u32, 7);
     common::random_search(rep, "random-sequences", 50, n, &move || arb_sequence_ast(depth), &|c: &AstCase, l| {
         l.sample(3, || json!(tok::render_spaced(&render_tokens(&c.ast, &mut Minimal))));
